@@ -1,4 +1,8 @@
 """C05 — every locale's month and weekday names resolve to their meaning (E1 over the vocabulary)."""
+import json
+import os
+import subprocess
+import sys
 from datetime import datetime, timedelta
 
 from .. import api, vocab
@@ -46,12 +50,83 @@ def names():
     return _N
 
 
+ORDERS = ["base-then-regional-sorted", "regional-reversed-then-base", "incremental-sorted"]
+FAM_BASE = datetime(2019, 5, 16, 0, 0)
+
+
+def family(lang):
+    return [i for i, (l, _) in enumerate(LOCS) if l == lang]
+
+
+def family_run(lang, order):
+    """Runs in a fresh interpreter: load the locale objects of one language in the given order (one parse each), then check
+    every single-meaning month/weekday name of every one of them ("incremental": check each locale's names right after loading it).
+    Returns {names() index: [kind, observed]} for the entries that do not resolve to their meaning."""
+    fam = family(lang)
+    if order == "regional-reversed-then-base":
+        seq = sorted(fam, key=lambda i: LOCS[i][1] or "", reverse=True)     # base (None) last
+    else:
+        seq = sorted(fam, key=lambda i: LOCS[i][1] or "")                   # base first, regional sorted
+    by_loc = {}
+    for n, x in enumerate(names()):
+        if LOCS[x[0]][0] == lang:
+            by_loc.setdefault(x[0], []).append(n)
+    bad = {}
+
+    def check(li):
+        for n in by_loc.get(li, []):
+            _, key, name, norm = names()[n]
+            r = run_case("month-names" if key in vocab.MONTH_KEYS else "weekday-names", {"n": n, "d": 15, "y": 2015, "base": FAM_BASE})
+            if r[2] is not None:
+                bad[n] = [r[2]["cls"]["kind"], repr(r[2]["observed"])]
+
+    def load(li):
+        l, loc = LOCS[li]
+        api.outcome_of(api.gdd, "2015-01-15", [l] if loc is None else None, None if loc is None else [loc], None, None)
+
+    if order == "incremental-sorted":
+        for li in seq:
+            load(li)
+            check(li)
+    else:
+        for li in seq:
+            load(li)
+        for li in seq:
+            check(li)
+    return bad
+
+
+_fam_memo = {}
+
+
+def family_result(lang, order):
+    k = (lang, order)
+    if k not in _fam_memo:
+        if len(_fam_memo) > 8:
+            _fam_memo.clear()
+        code = ("import sys, json\nfrom vf.props import c05\n"
+                "print('RESULT ' + json.dumps(c05.family_run(sys.argv[1], sys.argv[2])))\n")
+        p = subprocess.run([sys.executable, "-c", code, lang, order], capture_output=True, text=True, timeout=1800,
+                           env=dict(os.environ))
+        line = next((ln for ln in p.stdout.splitlines() if ln.startswith("RESULT ")), None)
+        if p.returncode != 0 or line is None:
+            from ..target import InfraError
+            raise InfraError("family child for %s/%s failed: %s" % (lang, order, p.stderr[-1500:]))
+        _fam_memo[k] = {int(n): v for n, v in json.loads(line[7:]).items()}
+    return _fam_memo[k]
+
+
 def spaces(tier, seed):
     T = tier == "thorough"
     N = names()
     months = [i for i, x in enumerate(N) if x[1] in vocab.MONTH_KEYS]
     wds = [i for i, x in enumerate(N) if x[1] in vocab.WEEKDAY_KEYS]
+    multi = {l for l, loc in LOCS if loc is not None}
+    fam_names = [i for i, x in enumerate(N) if LOCS[x[0]][0] in multi]
     return [
+        Product("after-loading-sibling-locales", {"order": ORDERS, "n": fam_names},
+                note="fresh interpreter per (language, load order): all locale objects of the language are loaded in that order, then every name of "
+                     "every one of them is checked - a locale must understand its names whatever sibling locales were used before"),
         Product("month-names", {"n": months, "d": [1, 15, 28] if not T else range(1, 29), "y": [2015] if not T else [1999, 2015, 2024]},
                 note="'D <name> YYYY' for every single-meaning month name of every locale object"),
         Product("weekday-names", {"n": wds, "base": [datetime(2019, 5, 8, 10, 0), datetime(2019, 5, 16, 0, 0), datetime(2019, 5, 24, 23, 59, 59)]
@@ -63,6 +138,14 @@ def spaces(tier, seed):
 def run_case(sub, c):
     li, key, name, norm = names()[c["n"]]
     lang, loc = LOCS[li]
+    if sub == "after-loading-sibling-locales":
+        bad = family_result(lang, c["order"]).get(c["n"])
+        if bad is None:
+            return "ok", True, None
+        return "bad", True, {"cls": {"language": lang, "key": key, "name": name, "normalize": norm, "kind": bad[0]},
+                             "expected": "the name's own meaning", "observed": bad[1],
+                             "detail": {"locale": loc or lang, "load_order": c["order"],
+                                        "note": "python -c 'from vf.props import c05; print(c05.family_run(%r, %r))'" % (lang, c["order"])}}
     st = {"NORMALIZE": norm}
     langs, locs = ([lang], None) if loc is None else (None, [loc])
     if sub == "month-names":
